@@ -195,6 +195,12 @@ func specInCirc(q, start, count, length uint64) bool {
 //@   ensures[rep]     specRepAt(b, k, H(k) || (k == i && result))
 //@   ensures[top]     H(b.current) || (b.current == i && result)
 //@   assigns b.current, elems(b.bits)
+//@   cases k > i
+//@   cases k == i
+//@   cases k < i && k > cur0 && i-cur0 >= b.length
+//@   cases k < i && k > cur0 && i-cur0 < b.length
+//@   cases k <= cur0 && i > cur0 && i-cur0 >= b.length
+//@   cases k <= cur0 && i > cur0 && i-cur0 < b.length && cur0 < b.length
 //@   callghost clearRange q = k & b.lengthMask
 //@   callghost set q = k & b.lengthMask
 //@   loop 1 invariant true
